@@ -135,7 +135,7 @@ def h_link(idx: List[int], opt: int):
         reached("bad_protocol_not_linked")
 
 
-@harness(pre=pre_link, quick=dict(N=1, NF=3, F=1, NO=2, timeout=150), thorough=dict(N=2, NF=8, F=2, NO=16, timeout=1400),
+@harness(pre=pre_link, quick=dict(N=1, NF=3, F=1, NO=2, timeout=150, reach_timeout=120), thorough=dict(N=2, NF=8, F=2, NO=16, timeout=1400),
          nshards=dict(quick=3, thorough=16), reach=["free_in_link"],
          units=["escape.linkify", "escape.linkify.make_link", "escape._URL_RE", "escape.xhtml_escape"],
          stubs=["text = <= N pooled fragments (first NF of the pool) with <= F FREE symbolic code points "
@@ -144,7 +144,7 @@ def h_link(idx: List[int], opt: int):
 def h_link_free(idx: List[int], free: str, pos: int, opt: int):
     """free symbolic code points between pooled fragments."""
     text, out, n = _run(idx, free, pos, opt)
-    if n > 0 and len(free) == 1 and pos == 1 and len(idx) == 1 and idx[0] == 0:
+    if n > 0 and len(free) == 1:
         reached("free_in_link")
 
 
